@@ -276,6 +276,9 @@ else:
     last = max(lines)
     lines[last + 5] = "${_('MSG2')}"
     tmpl = "\\n".join(lines.get(i, "") for i in range(1, last + 6)) + "\\n"
+    if CASE.get("nesting") == "inside-inline-namespace":
+        # the same lines inside <%namespace name="x"><%def name="inner()"> ... </%def></%namespace> (tags share lines with their neighbours)
+        tmpl = '<%namespace name="x"><%def name="inner()">' + tmpl + '</%def></%namespace>\\n'
     print(tmpl)
     res = extract_template(CASE["extractor"], tmpl)
     print("extracted:", res)
